@@ -10,6 +10,13 @@ THEOREMS = ["c05_link_is_alias", "c05_link_keeps_attrs", "c05_write_seen_through
             "c05_refused_append_unchanged", "c05_linked_dimension_is_alias", "c05_linked_set_dimension",
             "c05_dimension_write_through", "c05_ticks_and_link_replace_each_other"]
 PRELUDES = [
+    # sources (top-level and nested) taken FROM one entity's source list and appended to the lists of others
+    [["create", 0, "CBlocks", "a", "t", []], ["create", 1, "CSources", "a", "t", []], ["create", 2, "CSources", "b", "t", []],
+     ["create", 1, "CDataArrays", "a", "t", [1]], ["create", 1, "CDataArrays", "b", "t", [2]], ["create", 1, "CTags", "c", "t", [1]],
+     ["append", 4, "LSources", 2], ["append", 4, "LSources", 3], ["lookup_link", 4, "LSources", ["pos", 0]],
+     ["lookup_link", 4, "LSources", ["pos", 1]], ["append", 5, "LSources", 7], ["append", 6, "LSources", 8], ["append", 5, "LSources", 8],
+     ["create", 1, "CGroups", "d", "t", []], ["append", 9, "LSources", 7], ["lookup_link", 6, "LSources", ["pos", 0]],
+     ["append", 9, "LSources", 10]],
     # a feature whose data is a data frame, re-pointed to an array and back; a data frame refused for a tagged feature
     [["create", 0, "CBlocks", "a", "t", []], ["create", 1, "CDataArrays", "a", "t", [1, 2]], ["create", 1, "CDataFrames", "b", "t", [3, 4]],
      ["create", 1, "CTags", "c", "t", [1]], ["create_feature", 4, 3, "untagged"], ["set_link", 5, "RFeatureData", 2],
